@@ -110,6 +110,23 @@ class ObjArr(_np.ndarray):
             is_float = False
         if is_float and any(sx.is_sym(e) for e in self.reshape(-1)):
             return self.copy()
+        try:
+            is_int = _np.issubdtype(_np.dtype(dtype), _np.integer)
+        except TypeError:
+            is_int = False
+        if is_int and any(sx.is_sym(e) for e in self.reshape(-1)):
+            # float -> int conversion truncates toward zero
+            out = _np.empty(self.shape, dtype=object)
+            flat = out.reshape(-1)
+            for i, e in enumerate(self.reshape(-1)):
+                if isinstance(e, sx.SymReal):
+                    f = sx.sym_floor(e)
+                    flat[i] = sx.ite(e >= 0, f, -sx.sym_floor(-e))
+                elif sx.is_sym(e):
+                    flat[i] = e
+                else:
+                    flat[i] = int(e)
+            return out.view(ObjArr)
         return _np.ndarray.astype(self, dtype, *a, **k)
 
 
